@@ -740,16 +740,16 @@ func (wk0 *walker) blockFrom(items []*item, stmts []ast.Stmt, cont []frame, st *
 
 // stmt handles one statement; done = the block is complete (return statement or an `if` that absorbed the rest).
 func (wk *walker) stmt(s ast.Stmt, rest []ast.Stmt, cont []frame, st *pstate, b *blk) (action, error) {
+	if syn, err := wk.componentIO(s, st); err != nil {
+		return actNext, err
+	} else if syn != nil {
+		return wk.ifStmt(syn, rest, cont, st, b)
+	}
 	if ci, err := wk.nestedCall(s, st); err != nil {
 		return actNext, err
 	} else if ci != nil {
 		wk.call = ci
 		return actCall, nil
-	}
-	if syn, err := wk.componentIO(s, st); err != nil {
-		return actNext, err
-	} else if syn != nil {
-		return wk.ifStmt(syn, rest, cont, st, b)
 	}
 	switch s := s.(type) {
 	case *ast.EmptyStmt:
@@ -1554,6 +1554,7 @@ var writePrims = map[string]primSpec{
 	"Uint32": {prim: "(PInt 4 false)"}, "Int64": {prim: "(PInt 8 true)"}, "Uint64": {prim: "(PInt 8 false)"},
 	"Float32": {prim: "(PInt 4 false)"}, "Float64": {prim: "(PInt 8 false)"},
 	"UUID": {prim: "PUUID"}, "UUIDIntArray": {prim: "PUUID"}, "Key": {prim: "PKey"},
+	"CompNbt": {prim: "PNbt"}, "CompJson": {prim: "(PString 65536)"},
 }
 
 var readPrims = map[string]primSpec{
@@ -1564,6 +1565,7 @@ var readPrims = map[string]primSpec{
 	"Uint32": {prim: "(PInt 4 false)"}, "Int64": {prim: "(PInt 8 true)"}, "Uint64": {prim: "(PInt 8 false)"},
 	"Float32": {prim: "(PInt 4 false)"}, "Float64": {prim: "(PInt 8 false)"}, "UnixMilli": {prim: "(PInt 8 true)"},
 	"UUID": {prim: "PUUID"}, "UUIDIntArray": {prim: "PUUID"}, "Key": {prim: "PKey"},
+	"CompNbt": {prim: "PNbt"}, "CompJson": {prim: "(PString 65536)"},
 }
 
 // isIOCall: util.WriteX / util.ReadX / util.PWriteX / util.PReadX / w.X / r.X / wr.Write / io.ReadAll
@@ -2045,11 +2047,13 @@ func (wk *walker) storeElem(s ast.Stmt, slice []string, elem ast.Expr, st *pstat
 			return nil // replaced by the current element when the loop ends
 		}
 		it := st.locals[id.Name]
+		if it != nil && it.f != nil && it.f.kind == "path" && samePath(it.f.path, to) {
+			return nil // the sibling branch of an optional already stored this very value in the same field
+		}
 		if it == nil || it.f == nil || it.f.kind != "local" {
-			return wk.bad(s, "element field filled from %s which holds no freshly read value on this path", id.Name)
+			return wk.bad(s, "element field %s filled from %s which holds no freshly read value on this path", to[len(to)-1], id.Name)
 		}
 		it.f = &fx{kind: "path", path: to}
-		delete(st.locals, id.Name)
 		return nil
 	}
 	if cl, ok := elem.(*ast.CompositeLit); ok {
@@ -2491,8 +2495,97 @@ func (wk *walker) nestedCall(s ast.Stmt, st *pstate) (*callInfo, error) {
 	return &callInfo{wk: cw, stmts: fd.Body.List, isRet: isRet}, nil
 }
 
-// componentIO: third stage (component holders as wire blobs) - not enabled yet
-func (wk *walker) componentIO(s ast.Stmt, st *pstate) (*ast.IfStmt, error) { return nil, nil }
+// componentIO: chat.ComponentHolder values travel as ONE field whose wire form depends on the protocol only:
+//   holder.Write(wr, c.Protocol)            = if c.Protocol >= 1.20.3 { nameless NBT tag } else { JSON text as a string }
+//   chat.ReadComponentHolder[NP](rd, c.Protocol) likewise.
+// (chat/component_holder.go: Write / read; this reading is part of the translator's trusted table and is
+// exercised by every correspondence case.)  The statement is replaced by that `if` with two pseudo primitives.
+func (wk *walker) componentIO(s ast.Stmt, st *pstate) (*ast.IfStmt, error) {
+	var call *ast.CallExpr
+	var lhs []ast.Expr
+	mode := ""
+	switch x := s.(type) {
+	case *ast.ExprStmt:
+		call, _ = x.X.(*ast.CallExpr)
+		mode = "expr"
+	case *ast.AssignStmt:
+		if len(x.Rhs) == 1 {
+			call, _ = x.Rhs[0].(*ast.CallExpr)
+			lhs = x.Lhs
+			mode = "assign"
+		}
+	case *ast.ReturnStmt:
+		if len(x.Results) == 1 {
+			call, _ = x.Results[0].(*ast.CallExpr)
+			mode = "return"
+		}
+	}
+	if call == nil || len(call.Args) != 2 {
+		return nil, nil
+	}
+	var target ast.Expr
+	if wk.side == encSide {
+		sel, ok := call.Fun.(*ast.SelectorExpr)
+		if !ok || sel.Sel.Name != "Write" {
+			return nil, nil
+		}
+		t, ok := wk.typeOfExpr(sel.X, st)
+		if !ok || t.name != "ComponentHolder" || t.pk.name != "chat" {
+			return nil, nil
+		}
+		target = sel.X
+	} else {
+		name := ""
+		switch f := call.Fun.(type) {
+		case *ast.SelectorExpr:
+			if x, ok := f.X.(*ast.Ident); ok && x.Name == "chat" {
+				name = f.Sel.Name
+			}
+		case *ast.Ident:
+			if wk.pk.name == "chat" {
+				name = f.Name
+			}
+		}
+		if name != "ReadComponentHolder" && name != "ReadComponentHolderNP" {
+			return nil, nil
+		}
+		if mode != "assign" || len(lhs) != 2 {
+			return nil, wk.bad(s, "component read whose value is not assigned")
+		}
+	}
+	// arguments: the caller's stream and c.Protocol
+	if id, ok := call.Args[0].(*ast.Ident); !ok || id.Name != wk.io || wk.io == "" {
+		return nil, wk.bad(s, "component I/O on a different stream")
+	}
+	if wk.ctx == "" || !wk.isCtxSel(call.Args[1], "Protocol") {
+		return nil, wk.bad(s, "component I/O with a protocol that is not c.Protocol")
+	}
+	pos := s.Pos()
+	utilId := func() ast.Expr { return &ast.Ident{Name: wk.util, NamePos: pos} }
+	ioId := &ast.Ident{Name: wk.io, NamePos: pos}
+	mk := func(kind string) ast.Stmt {
+		var c *ast.CallExpr
+		if wk.side == encSide {
+			c = &ast.CallExpr{Fun: &ast.SelectorExpr{X: utilId(), Sel: &ast.Ident{Name: "Write" + kind, NamePos: pos}}, Lparen: pos, Args: []ast.Expr{ioId, target}}
+		} else {
+			c = &ast.CallExpr{Fun: &ast.SelectorExpr{X: utilId(), Sel: &ast.Ident{Name: "Read" + kind, NamePos: pos}}, Lparen: pos, Args: []ast.Expr{ioId}}
+		}
+		switch mode {
+		case "return":
+			return &ast.ReturnStmt{Return: pos, Results: []ast.Expr{c}}
+		case "assign":
+			return &ast.AssignStmt{Lhs: lhs, TokPos: pos, Tok: token.ASSIGN, Rhs: []ast.Expr{c}}
+		}
+		return &ast.ExprStmt{X: c}
+	}
+	cond := &ast.CallExpr{
+		Fun:    &ast.SelectorExpr{X: &ast.SelectorExpr{X: &ast.Ident{Name: wk.ctx, NamePos: pos}, Sel: &ast.Ident{Name: "Protocol", NamePos: pos}}, Sel: &ast.Ident{Name: "GreaterEqual", NamePos: pos}},
+		Lparen: pos,
+		Args:   []ast.Expr{&ast.SelectorExpr{X: &ast.Ident{Name: "version", NamePos: pos}, Sel: &ast.Ident{Name: "Minecraft_1_20_3", NamePos: pos}}},
+	}
+	return &ast.IfStmt{If: pos, Cond: cond, Body: &ast.BlockStmt{Lbrace: pos, List: []ast.Stmt{mk("CompNbt")}},
+		Else: &ast.BlockStmt{Lbrace: pos, List: []ast.Stmt{mk("CompJson")}}}, nil
+}
 
 // ---------- loops ----------
 
